@@ -420,10 +420,40 @@ def conv_ok(t, v, an):
     return None
 
 
+NBITS = 15
+
+
+def clsx(t):
+    """index of the Python class of a member's type object in the measured address-order string (= CyVerif.C34.clsx):
+    0 CIntType, 1 CBIntType, 2 CFloatType, 3 CComplexType, 4 PyObjectType, 6 PyExtensionType, 7 MemoryViewSliceType,
+    8 class of Py_ssize_t, 9 class of size_t, 10+n class of builtin type n"""
+    if t.kind == "cint":
+        return 8 if (t.rank, t.sg) == (14, 1) else 9 if (t.rank, t.sg) == (14, 0) else 0
+    if t.kind == "builtin":
+        return 10 + t.n
+    return {"bint": 1, "cfloat": 2, "ccomplex": 3, "obj": 4, "ext": 6, "mview": 7}[t.kind]
+
+
+# evaluated INSIDE a compiler process: the address order `id(MemoryViewSliceType) < id(type(<type object>))` for the class of every
+# type object the generated lists can contain (base PyrexType.__lt__ is an address comparison; it is a fact of the process)
+_BITS_CODE = r"""
+def class_order_bits(P, Builtin):
+    plain = [P.c_char_type, P.c_schar_type, P.c_uchar_type, P.c_short_type, P.c_ushort_type, P.c_int_type, P.c_uint_type, P.c_long_type,
+             P.c_ulong_type, P.c_longlong_type, P.c_ulonglong_type]
+    assert len(set(type(t) for t in plain)) == 1 and len(set(type(t) for t in (P.c_float_type, P.c_double_type, P.c_longdouble_type))) == 1
+    assert type(P.c_float_complex_type) is type(P.c_double_complex_type)
+    reps = {0: P.c_int_type, 1: P.c_bint_type, 2: P.c_double_type, 3: P.c_double_complex_type, 4: P.py_object_type,
+            6: P.PyExtensionType('X', 0, None), 8: P.c_py_ssize_t_type, 9: P.c_size_t_type}
+    for n, name in enumerate(%r):
+        reps[10 + n] = Builtin.builtin_scope.lookup(name).type
+    m = id(P.MemoryViewSliceType)
+    return ''.join('1' if k in reps and m < id(type(reps[k])) else '0' for k in range(%d))
+""" % (BUILTINS, NBITS)
+
+
 def py_sorted(below, ms):
     """CPython's own list.sort driven by a transcription of PyrexTypes.__lt__ (oracle for the sort model)"""
     numeric = ("cint", "bint", "cfloat", "ccomplex")
-    cls = {"cint": 0, "bint": 1, "cfloat": 2, "ccomplex": 3, "obj": 4, "builtin": 5, "ext": 6, "mview": 7}
 
     class K:
         def __init__(self, i, t):
@@ -440,7 +470,7 @@ def py_sorted(below, ms):
             if a.kind == "ccomplex":
                 return b.kind == "ccomplex" and ra > rb
             if a.kind == "mview":
-                return below[cls[b.kind]] == "1"
+                return below[clsx(b)] == "1"
             return False
     ks = [K(i, t) for i, t in enumerate(ms)]
     ks.sort()
@@ -453,10 +483,8 @@ from Cython.Compiler import Options
 import Cython.Compiler.Code as Code
 from Cython.Compiler import PyrexTypes as P
 assert Code.__file__.endswith('.py')
-m = id(P.MemoryViewSliceType)
-cl = [P.CIntType, P.CBIntType, P.CFloatType, P.CComplexType, P.PyObjectType, P.BuiltinObjectType, P.PyExtensionType, P.MemoryViewSliceType]
-print(''.join('1' if m < id(c) else '0' for c in cl))
-print(''.join('1' if m < id(c) else '0' for c in (P.CPySSizeTType, P.CSizeTType)))
+from Cython.Compiler import Builtin
+print(class_order_bits(P, Builtin))
 """
 
 
@@ -464,17 +492,13 @@ def read_below(ctx):
     """`id(MemoryViewSliceType) < id(<class>)` in a compiler process of the staged tree (base PyrexType.__lt__)"""
     outs = set()
     for _ in range(2):
-        p = subprocess.run([lib.PYTHON, "-c", _BELOW_SNIPPET], env=lib._clean_env({"PYTHONPATH": ctx.stage}),
+        p = subprocess.run([lib.PYTHON, "-c", _BITS_CODE + _BELOW_SNIPPET], env=lib._clean_env({"PYTHONPATH": ctx.stage}),
                            stdout=subprocess.PIPE, stderr=subprocess.PIPE, text=True, timeout=120)
         if p.returncode != 0:
             raise lib.Infra("id probe failed: " + p.stderr[-400:])
-        outs.add(tuple(l for l in p.stdout.split("\n") if l and set(l) <= set("01")))
-    if len(outs) != 1:
-        return None, "class ids are not stable between compiler processes: %r" % sorted(outs)
-    (a, b), = outs
-    if b != a[0] * 2:
-        return None, "Py_ssize_t/size_t classes order differently from CIntType: %s vs %s" % (b, a[0])
-    return a, None
+        outs.add([l for l in p.stdout.split("\n") if len(l) == NBITS and set(l) <= set("01")][-1])
+    # an address order is never a verdict: if the two probes differ the first is only the starting guess for pick_below
+    return sorted(outs)[0], (None if len(outs) == 1 else "class address order differs between two compiler processes: %r" % sorted(outs))
 
 
 # ---------------------------------------------------------------------------------------------------------------
@@ -671,6 +695,45 @@ def build_all(ctx, fns, per_module):
     return out, rejected
 
 
+def case_agrees(fn, pos, kw, got, mo):
+    """does the model line `mo` explain the observed outcome `got` (same rule as in check_calls)"""
+    impl = eval(got[len("ok str:"):]) if got.startswith("ok str:") else got
+    msig = [int(x) for x in mo[3:].split("_")] if mo.startswith("ok ") and mo != "ok " else ([] if mo == "ok " else None)
+    if impl.startswith("R "):
+        isig = parse_result(fn, impl)
+        return isig is not None and isig == msig
+    if impl.startswith("E "):
+        return mo == "err TypeError " + impl[2:]
+    if impl.startswith("X ") and msig is not None:
+        vals = bound_values(fn, pos, kw)
+        verdicts = [conv_ok(fn.tested(p)[msig[p["fv"]]], v, p["an"]) for p, v in zip(fn.params, vals) if p["fv"] is not None and v is not None]
+        return (impl == "X TypeError" and any(v is None for v in vals)) or any(x is not True for x in verdicts)
+    return False
+
+
+def pick_below(ctx, below, cases, outs):
+    """The class address order of the process that COMPILED this module cannot be read from outside.  The probe value is tried first;
+    if the model does not explain the module under it, every order of the classes that occur in the module is tried (the theorems
+    hold for every order); the one compile process had ONE order, so a single order must explain all cases of the module."""
+    def bad(b):
+        mo = ctx.drv.batch([case_line(b, *c) for c in cases])
+        return sum(1 for c, g, m in zip(cases, outs, mo) if not case_agrees(c[0], c[1], c[2], g, m))
+    if not cases or bad(below) == 0:
+        return below
+    fns = {id(c[0]): c[0] for c in cases}.values()
+    present = sorted(set(clsx(t) for f in fns for ms in f.fvars for t in ms if t.kind != "mview"))[:10]
+    for mask in range(1 << len(present)):
+        b = ["0"] * NBITS
+        for j, k in enumerate(present):
+            if mask >> j & 1:
+                b[k] = "1"
+        b = "".join(b)
+        if bad(b) == 0:
+            ctx.notes.setdefault("classOrder_inferred_for_modules", []).append(b)
+            return b
+    return below
+
+
 def check_calls(ctx, below, cases, outs):
     mouts = ctx.drv.batch([case_line(below, *c) for c in cases])
     docq, docw = [], []
@@ -833,8 +896,10 @@ def check_sort(ctx, below, n):
     # the class-id order is a fact of the process (it depends on the import sequence): the real sort is compared under
     # the order measured in the SAME process; both orders seen (compile-like process, probe process) go through the model
     below_s, real = real_sorted(ctx, lists)
-    ctx.notes["mvBelow_sort_probe"] = below_s
-    below = below_s or below
+    ctx.notes["classOrder_sort_process"] = below_s
+    if below_s is None:
+        return
+    below = below_s        # ONLY the order measured in the process that ran the real sorts is used for this leg
     mouts = ctx.drv.batch(["C34 sort %s %s" % (below, " ".join(t.tok for t in ms)) for ms in lists])
     for ms, mo, rl in zip(lists, mouts, real):
         want = "ok " + "_".join(map(str, py_sorted(below, ms)))
@@ -887,20 +952,65 @@ for ms in lists:
     ws = [W(t, i) for i, t in enumerate(tys)]
     ws.sort()
     out.append([w.i for w in ws])
-m = id(P.MemoryViewSliceType)
-cl = [P.CIntType, P.CBIntType, P.CFloatType, P.CComplexType, P.PyObjectType, P.BuiltinObjectType, P.PyExtensionType, P.MemoryViewSliceType]
-print(json.dumps([''.join('1' if m < id(c) else '0' for c in cl), out]))
+print(json.dumps([class_order_bits(P, Builtin), out]))
 """
 
 
 def real_sorted(ctx, lists):
     data = [[{"kind": t.kind, "decl": t.decl, "base": t.decl.partition("[")[0], "ndim": getattr(t, "ndim", 0), "cc": getattr(t, "cc", 0)} for t in ms] for ms in lists]
-    p = subprocess.run([lib.PYTHON, "-c", _SORT_SNIPPET], input=json.dumps(data), env=lib._clean_env({"PYTHONPATH": ctx.stage}),
+    p = subprocess.run([lib.PYTHON, "-c", _BITS_CODE + _SORT_SNIPPET], input=json.dumps(data), env=lib._clean_env({"PYTHONPATH": ctx.stage}),
                        stdout=subprocess.PIPE, stderr=subprocess.PIPE, text=True, timeout=300)
     if p.returncode != 0:
         ctx.tie_break("D-py sort probe", cap(p.stderr[-400:]), {})
         return None, [None] * len(lists)
     return json.loads(p.stdout.strip().split("\n")[-1])
+
+
+_ADDR_SRC = """# cython: language_level=3
+cimport cython
+ctypedef fused T:
+    int[:]
+    long
+    double[:]
+def f(T a):
+    return cython.typeof(a)
+"""
+_ADDR_PROBE = r"""
+import sys, re
+exec(sys.argv[1])
+from Cython.Compiler.Main import compile as cy_compile, CompilationOptions
+import Cython.Compiler.Code as C
+assert C.__file__.endswith('.py')
+cy_compile('w.pyx', CompilationOptions(language_level=3))
+m = re.search(r"if arg is None:\n \*\s+return '([^']+)'", open('w.c').read())
+print('NONE->' + (m.group(1) if m else '?'))
+"""
+
+
+def check_address_dependence(ctx):
+    """the same source compiled by two compiler processes that differ only in what was imported before: the generated
+    dispatcher must select the same member for f(None).  (Address dependent: reported only when it actually differs.)"""
+    import os
+    got = {}
+    for k, pre in enumerate(("pass", "import json", "from Cython.Build import cythonize")):
+        d = os.path.join(ctx.scratch, "addr%d" % k)
+        os.makedirs(d, exist_ok=True)
+        with open(os.path.join(d, "w.pyx"), "w") as f:
+            f.write(_ADDR_SRC)
+        with open(os.path.join(d, "probe.py"), "w") as f:
+            f.write(_ADDR_PROBE)
+        p = subprocess.run([lib.PYTHON, "probe.py", pre], cwd=d, env=lib._clean_env({"PYTHONPATH": ctx.stage}),
+                           stdout=subprocess.PIPE, stderr=subprocess.PIPE, text=True, timeout=900)
+        out = [l for l in p.stdout.split("\n") if l.startswith("NONE->")]
+        if p.returncode == 0 and out:
+            got[pre] = out[-1][6:]
+    ctx.notes["address_dependence_probe"] = got
+    ctx.count("address-dependence/%d-distinct" % len(set(got.values())))
+    if len(set(got.values())) > 1:
+        ctx.violation("member-order-depends-on-type-class-addresses",
+                      cap("fused {int[:], long, double[:]}: f(None) is dispatched to %r depending only on what the compiler process imported before "
+                          "compiling (PyrexType.__lt__ compares id(type(self)) for memoryview types)" % got),
+                      {"source": _ADDR_SRC, "selected_for_None_by_preamble": got})
 
 
 def run(ctx):
@@ -918,13 +1028,13 @@ def run(ctx):
                        "methods, and the equality of specialisation bodies with the generic source (checked only by typeof tags).")
     ctx.assumptions = ["LP64 sizes of the C types", "numpy importable at call time", "CPython 3.12 list.sort (count_run + binarysort) for < 64 members"]
     below, why = read_below(ctx)
-    if below is None:
-        ctx.tie_break("class id order", why, {})
-        return
-    ctx.notes["mvBelow"] = below
+    ctx.notes["classOrder_compile_like_probe"] = below
+    if why:
+        ctx.notes["classOrder_unstable"] = why
     if ctx.replay_case and "source" in ctx.replay_case:
         return replay(ctx, below, ctx.replay_case)
     check_sort(ctx, below, ctx.n(300, 5000))
+    check_address_dependence(ctx)
     rng = ctx.rng
     import os
     nrand = int(os.environ.get("VERIF_C34_RANDOM_FNS", ctx.n(11, 59)))       # knob for the self-test on a loaded machine
@@ -946,7 +1056,8 @@ def run(ctx):
         for pr in preps:
             srcs += pr["srcs"]
         allouts = cybuild.run_cases(ctx, so, srcs)
-        outs, mouts = check_calls(ctx, below, cases, allouts[:len(cases)])
+        mbelow = pick_below(ctx, below, cases, allouts[:len(cases)])
+        outs, mouts = check_calls(ctx, mbelow, cases, allouts[:len(cases)])
         if cases:
             k = rng.randrange(len(cases))
             ctx.sample({"fn": cases[k][0].describe(), "call": cap(case_src(*cases[k]), 200), "impl": cap(outs[k], 120), "model": mouts[k]})
